@@ -203,6 +203,12 @@ def main(tier, seed):
                 items.append((dict(n=3, history=list(h), mode=mode, cap=600), 1 if tier == "quick" else 2))
             else:
                 items.append((dict(n=2, history=list(h), mode=mode, cap=1500), 2))
+    # the shortest histories in which a stale entry could be served after a change: X, change, X
+    if tier == "quick":
+        for x in ("pg:bootstrap", "pg:semi-adapted", "pg:fully-adapted", "subtree:semi-adapted"):
+            for mid in ("alpha", "dp", "prg", "clear"):
+                for mode in ("run", "library"):
+                    items.append((dict(n=2, history=[x, mid, x], mode=mode, cap=1500, outlier_prob=0.2), 2))
     hits_total = {}
     for r in pool_imap(case, items, chunksize=1):
         cfg, bound = r["item"]
